@@ -61,7 +61,8 @@ def run(ctx):
                 "unequal weights (sus), remainder != 0 (tiled), table with a duplicate (outcross/axis); distinct by input")
     ctx.assume("weights handed to the code are integer vectors times a float scale; proportionality is checked on the integers",
                "offset exactly 0.0 (probability 2^-53 per call) is probed separately, see known findings",
-               "axis_shuffle exercised on 2-d arrays with non-negative axis (slices are 1-d)")
+               "axis_shuffle exercised on 2-d arrays (integer or 1-tuple axis) and on 3-d / 4-d arrays with tuples of non-negative axes in "
+               "any order; the decomposition of an n-d array into its requested slices is done by the harness, TLC compares the multisets")
     model_check(ctx)
     from pybrops.core.random.sampling import (stochastic_universal_sampling as sus, tiled_choice, axis_shuffle,
                                               outcross_shuffle)
@@ -154,6 +155,32 @@ def run(ctx):
             c["after"] = arr.tolist()
         except Exception as e:
             c["after"] = before; c["exc"] = repr(e)
+        allc.append(c)
+    # ---- axis shuffle on 3-d / 4-d arrays with a TUPLE of axes in any order (ascending, descending, repeated): the
+    # requested slices are a[s] with the named axes fixed; the case hands TLC one row per requested slice (flattened)
+    perms = [(0,), (1,), (2,), (0, 1), (1, 0), (0, 2), (2, 0), (1, 2), (2, 1), (0, 0, 1), (2, 2, 0), (0, 1, 2), (2, 1, 0), (1, 2, 0)]
+    for t in range(len(perms) * (6 if thorough else 3)):
+        axes = perms[t % len(perms)]
+        nd = 3 if (t % 4 and len(set(axes)) < 3) else 4      # at least one axis is left to shuffle along
+        shape = tuple(rng.randrange(2, 4) for _ in range(nd))
+        arr = np.arange(int(np.prod(shape))).reshape(shape) % rng.choice([5, 7, 1000])
+        before_nd = arr.copy()
+        g = np.random.default_rng(rng.randrange(2 ** 32)) if t % 2 else np.random.RandomState(rng.randrange(2 ** 32))
+        cid += 1
+        c = {"id": cid, "kind": "axis", "axis": 0, "nd": {"shape": list(shape), "axes": list(axes)}}
+        fixed = sorted(set(axes))
+        slices = []
+        for ix in itertools.product(*[range(shape[d]) for d in fixed]):
+            sl = [slice(None)] * nd
+            for d, i in zip(fixed, ix):
+                sl[d] = i
+            slices.append(tuple(sl))
+        c["before"] = [before_nd[sl].ravel().tolist() for sl in slices]
+        try:
+            axis_shuffle(arr, axes, g)
+            c["after"] = [arr[sl].ravel().tolist() for sl in slices]
+        except Exception as e:
+            c["after"] = c["before"]; c["exc"] = repr(e)
         allc.append(c)
     # ---- outcross shuffle: snapshot at every outer iteration (hook on the shuffle of the exchange list)
     # input selection: tables with the minimal number (4) of improving exchanges (a search that skips part of the
